@@ -48,3 +48,7 @@ func (t *TraefikOidc) VerifHousekeeping() {
 func (t *TraefikOidc) VerifEndpoints() map[string]string {
 	return map[string]string{"auth": t.authURL, "token": t.tokenURL, "jwks": t.jwksURL, "end_session": t.endSessionURL, "revocation": t.revocationURL, "issuer": t.issuerURL}
 }
+
+// VerifDeriveBlockKey exposes the (public, deterministic) derivation of the cookie encryption key from a session key, so that the
+// keyless analysis can do what anyone holding the source can do: derive block keys from keys of their own choosing.
+func VerifDeriveBlockKey(key string) []byte { return deriveBlockKey(key) }
